@@ -66,7 +66,15 @@ def call_spec(draw, routines=ROUTINES):
 
 @st.composite
 def cases(draw, tier):
-    mode = draw(st.sampled_from(["single", "single", "history", "unbiased", "rademacher_diag", "reuse"]))
+    mode = draw(st.sampled_from(["single", "single", "history", "unbiased", "rademacher_diag", "reuse", "cap"]))
+    if mode == "cap":
+        # iteration cap through every way of handing it over: the function, Hutch(...), Auto(...) on its stochastic side;
+        # products are counted by the operator itself
+        n = draw(st.sampled_from([4, 5, 6, 8, 10, 12, 130]))
+        return {"mode": mode, "n": n, "seed": draw(st.integers(0, 10**5)), "key": draw(st.integers(1, 2**31 - 1)),
+                "via": draw(st.sampled_from(["hutch_fn", "diag_hutch", "trace_hutch", "diag_auto", "trace_auto"])),
+                "k": draw(st.integers(-2, 2)), "rand": draw(st.sampled_from(["normal", "rademacher"])), "max_iters": draw(st.integers(1, 6)),
+                "tol": draw(st.sampled_from([1.0001e-3, 0.09, 0.3]))}
     if mode == "reuse":
         # one algorithm object (carrying the key) handed to the same call twice: composite operators whose rules pass
         # the object on to their parts, parts without a deterministic rule so that the estimator really runs
@@ -82,7 +90,7 @@ def cases(draw, tier):
         spec.update(tol=1.0001e-3, max_iters=draw(st.integers(10, 40)))
         return {"mode": mode, "call": spec}
     if mode == "rademacher_diag":
-        n = draw(st.integers(1, 12))
+        n = draw(st.integers(1, 12)) if draw(st.integers(1, 5)) > 1 else draw(st.sampled_from([99, 100, 101, 150, 260]))  # both sides of the probe block size 100
         return {"mode": mode, "n": n, "seed": draw(st.integers(0, 10**5)), "key": draw(st.integers(1, 2**31 - 1)),
                 "max_iters": draw(st.integers(1, 8)), "via": draw(st.sampled_from(["hutch", "diag_hutch", "trace_hutch"]))}
     steps = []
@@ -342,9 +350,49 @@ def check(case, out):
         np.random.set_state(saved)
 
 
+def check_cap(case, out):
+    import cola
+    from cola.linalg.trace.diagonal_estimation import hutchinson_diag_estimate
+    L = cola.linalg
+    n, via, cap, tol = case["n"], case["via"], case["max_iters"], case["tol"]
+    rng = np.random.default_rng(case["seed"])
+    M = rng.integers(-3, 4, size=(n, n)).astype(np.float64)  # large off-diagonal part: the estimate does not converge early
+    calls = []
+
+    def mm(X):
+        calls.append(X.shape[-1] if X.ndim == 2 else 1)
+        return M @ X
+
+    A = cola.ops.LinearOperator(np.float64, (n, n), matmat=mm)
+    out.label("cap:" + via, "n:%s" % ("small" if n <= 12 else "big"))
+    out.nontrivial = True
+    k = case["k"] if via in ("hutch_fn", "diag_hutch", "diag_auto") else 0
+    if via.endswith("auto"):
+        tol = max(tol, 1.01 / np.sqrt(10.0 * n * n))  # the stochastic side of Auto's switch
+    kw = dict(tol=tol, max_iters=cap, rand=case["rand"], key=case["key"])
+    try:
+        if via == "hutch_fn":
+            hutchinson_diag_estimate(A, k=k, **kw)
+        elif via == "diag_hutch":
+            L.diag(A, k, L.Hutch(**kw))
+        elif via == "trace_hutch":
+            L.trace(A, L.Hutch(**kw))
+        elif via == "diag_auto":
+            L.diag(A, k, L.Auto(**kw))
+        else:
+            L.trace(A, L.Auto(**kw))
+    except Exception as e:
+        out.notes.append(f"cap:{via}:" + oracle.exc_man(e))
+        return
+    if len(calls) > cap:
+        out.fail("max_iters", "cap:" + via, "exceeded", f"{len(calls)} probe blocks multiplied with max_iters={cap} (tol={tol:g}, n={n})")
+
+
 def _check(case, out, mode):
     if mode == "reuse":
         return check_reuse(case, out)
+    if mode == "cap":
+        return check_cap(case, out)
     if mode == "single":
         spec = case["call"]
         out.label("routine:" + spec["routine"], "op:" + spec["op"]["kind"])
